@@ -48,12 +48,42 @@ pub trait Harness: Sync {
     fn components(&self) -> Value;
 }
 
+/// The host application's logging configuration is an environment choice too: `log` macros
+/// evaluate their arguments only when the level is enabled, so code with side effects in a
+/// log argument behaves differently under a logger. The simulator always installs a
+/// discarding logger at Trace level (the more demanding environment; the logger-less one is
+/// what the repository's own tests exercise). `VERIF_LOG=off` turns it off.
+struct DiscardLogger;
+
+impl log::Log for DiscardLogger {
+    fn enabled(&self, _m: &log::Metadata) -> bool {
+        true
+    }
+    fn log(&self, r: &log::Record) {
+        // format the message so that lazily formatted arguments are really rendered
+        let _ = std::hint::black_box(format!("{}", r.args()).len());
+    }
+    fn flush(&self) {}
+}
+
+static DISCARD_LOGGER: DiscardLogger = DiscardLogger;
+
+pub fn install_logger() {
+    if std::env::var("VERIF_LOG").as_deref() == Ok("off") {
+        return;
+    }
+    if log::set_logger(&DISCARD_LOGGER).is_ok() {
+        log::set_max_level(log::LevelFilter::Trace);
+    }
+}
+
 thread_local! {
     static LAST_PANIC: RefCell<Option<(String, String)>> = const { RefCell::new(None) };
 }
 
 /// Install a silent panic hook that remembers (location, message) per thread.
 pub fn install_panic_hook() {
+    install_logger();
     std::panic::set_hook(Box::new(|info| {
         let loc = info
             .location()
@@ -650,6 +680,14 @@ pub fn search<H: Harness>(h: &H, opts: &Opts, wrap: &(dyn Fn(&mut (dyn FnMut() +
     let mut new_violations = 0u64;
     let mut known_hits: Vec<String> = Vec::new();
     let mut replay_files: Vec<String> = Vec::new();
+    // a harness problem reported from inside a case is a harness error, never a violation
+    let harness_errs: Vec<&(u64, Violation)> = agg.violations.iter().filter(|x| x.1.class == "harness").collect();
+    if !harness_errs.is_empty() {
+        for (idx, v) in harness_errs.iter().take(3) {
+            println!("HARNESS-ERROR: check={} case_index={} {}: {}", h.name(), idx, v.site, v.detail);
+        }
+        return 2;
+    }
     for (idx, v) in &agg.violations {
         let key = (v.class.clone(), v.site.clone());
         let (attempts, was_confirmed) = seen.get(&key).cloned().unwrap_or((0, false));
